@@ -23,6 +23,7 @@ type ClientServerStream struct {
 	clientSend chan any
 	trailer    metadata.MD
 	closed     context.CancelFunc
+	closeErrM  sync.Mutex // guards closeErr, which may be read (after a parent context cancellation) while Close is running
 	closeErr   error
 }
 
@@ -38,13 +39,17 @@ func NewClientServerStream(ctx context.Context) *ClientServerStream {
 }
 
 func (s *ClientServerStream) Close(err error) {
+	s.closeErrM.Lock()
 	s.closeErr = err
+	s.closeErrM.Unlock()
 	close(s.serverSend)
 	s.closed()
 }
 
 // safe to call if s.serverSend is closed
 func (s *ClientServerStream) closeErrLocked() error {
+	s.closeErrM.Lock()
+	defer s.closeErrM.Unlock()
 	if s.closeErr == nil {
 		return io.EOF
 	}
